@@ -236,6 +236,12 @@ def discharge(queries, budget_s=10.0, procs=None, want_model=True, portfolio=Tru
     return out
 
 
+# optional: bound the feasibility checks by z3's resource counter instead of wall-clock time (tried: it did not make the set
+# of explored paths reproducible and was slower; 0 = time-outs, the default)
+RLIMIT_GROUND = int(os.environ.get('PYVC_RLIMIT_GROUND', '0'))
+RLIMIT_FULL = int(os.environ.get('PYVC_RLIMIT_FULL', '0'))
+
+
 def _ground(h):
     """no quantifier anywhere inside"""
     todo, seen = [h], set()
@@ -267,7 +273,10 @@ def quick_unsat(hyps, timeout_ms=250, full=False):
             if _GROUND_CACHE[k]:
                 g.append(h)
         s = z3.Solver()
-        s.set('timeout', 500)       # quantifier-free: decided in < 10 ms when decidable at all (50x margin for a loaded machine)
+        if RLIMIT_GROUND:
+            s.set('rlimit', RLIMIT_GROUND)   # a deterministic resource bound: the same paths on every machine and load
+        else:
+            s.set('timeout', 500)
         for h in g:
             s.add(h)
         r = s.check()
@@ -276,7 +285,10 @@ def quick_unsat(hyps, timeout_ms=250, full=False):
         if r == z3.sat:
             return False
     s = z3.Solver()
-    s.set('timeout', timeout_ms)
+    if RLIMIT_FULL:
+        s.set('rlimit', RLIMIT_FULL)
+    else:
+        s.set('timeout', timeout_ms)
     for h in hyps:
         s.add(h)
     return s.check() == z3.unsat
